@@ -156,3 +156,15 @@ def _agrees(core, op, reflected, other, assigns, name):
         return True, 'ok'
     want = ('self %s %s' % (opn, other)) if not reflected else ('%s %s self' % (other, opn))
     return False, 'operand order: %s must compute %s, got %s' % (name, want, src(core)[:80])
+
+
+def pinv_cutoff(call):
+    """None when a pseudo-inverse call keeps NumPy's default singular-value cut-off (an exact inverse on every full-rank
+    matrix up to rounding); otherwise a text describing the truncation that was requested."""
+    import ast as _ast
+    extra = list(call.args[1:]) + [k.value for k in call.keywords if k.arg in ('rcond', 'rtol')]
+    for v in extra:
+        if isinstance(v, _ast.Constant) and isinstance(v.value, (int, float)) and not isinstance(v.value, bool) and v.value <= 1e-12:
+            continue
+        return _ast.unparse(v)
+    return None
